@@ -355,6 +355,15 @@ impl ParallelCacheState {
                 crate::verif::point(crate::verif::Point::CommitApplyAccount, 2, 0);
                 (transition, None)
             } else {
+                // Code installed without CREATE (an EIP-7702 delegation) must stay resolvable by
+                // hash as well: later blocks on this state reach it through `code_by_hash_ref`
+                // once a multi-version `Basic` entry (published without code) shadows the cached
+                // account, and neither the contract cache nor the backing database knows it yet.
+                if let Some(code) = &account.info.code &&
+                    !account.info.is_empty_code_hash()
+                {
+                    self.contracts.entry(account.info.code_hash).or_insert_with(|| code.clone());
+                }
                 let (transition, changed_slots) =
                     self.get_account_mut(address).change(account.info, changed_storage);
                 (Some(transition), Some(changed_slots))
